@@ -226,14 +226,25 @@ theorem rehash_table (hash : κ → Nat) (n : Nat) (hn : 0 < n) (es : List (MEnt
 def rehashTable (hash : κ → Nat) (n : Nat) (es : List (MEntry κ ν)) : List (List Nat) :=
   es.foldl (fun t e => pushBucket t (hash e.key % n) e.id) (List.replicate n [])
 
+/-- the bucket capacities computed by `rehash` -/
+def rehashCaps (hash : κ → Nat) (n : Nat) (es : List (MEntry κ ν)) : List Nat :=
+  (es.foldl (fun (tc : List (List Nat) × List Nat) e =>
+      (pushBucket tc.1 (hash e.key % n) e.id, tc.2.modify (hash e.key % n) (pushCap ((tc.1.getD (hash e.key % n) []).length))))
+    (List.replicate n [], List.replicate n 0)).2
+
+theorem inv_bcaps {m : XMap κ ν} (h : Inv hash m) (c : List Nat) : Inv hash { m with bcaps := c } :=
+  ⟨h.size_eq, h.ids_nodup, h.keys_nodup, h.free_nodup, h.disjoint, h.bucketed, h.nodangling, h.fresh_e, h.fresh_f,
+   h.minb, h.lfd⟩
+
 theorem rehash_inv {m : XMap κ ν} (h : Inv hash m) (hs : 0 < 8 * m.size / 5) :
     ∃ m', rehash hash m = some m' ∧ Inv hash m' ∧ m'.entries = m.entries ∧ m'.free = m.free ∧
       m'.nextId = m.nextId ∧ m'.buckets.length ≠ 0 := by
   have hne : ¬ 8 * m.size / 5 = 0 := by omega
   obtain ⟨l1, _, mem1, org1⟩ := rehash_table hash (8 * m.size / 5) hs m.entries
     (List.replicate (8 * m.size / 5) []) (by simp)
-  refine ⟨{ m with buckets := rehashTable hash (8 * m.size / 5) m.entries }, ?_, ?_, rfl, rfl, rfl, ?_⟩
-  · simp only [rehash, hne, if_false, rehashTable]
+  refine ⟨{ m with buckets := rehashTable hash (8 * m.size / 5) m.entries,
+                   bcaps := rehashCaps hash (8 * m.size / 5) m.entries }, ?_, ?_, rfl, rfl, rfl, ?_⟩
+  · simp only [rehash, hne, if_false, rehashTable, rehashCaps]
   · refine ⟨h.size_eq, h.ids_nodup, h.keys_nodup, h.free_nodup, h.disjoint, ?_, ?_, h.fresh_e, h.fresh_f, h.minb, h.lfd⟩
     · intro e he
       show ∃ b, (rehashTable hash (8 * m.size / 5) m.entries)[hash e.key %
@@ -324,7 +335,7 @@ theorem createEntry_spec {m : XMap κ ν} (h : Inv hash m) (k : κ) (v : ν) (hk
       e.key = k ∧ e.val = v := by
   unfold createEntry
   -- step 1: initial buckets
-  have h1 : ∃ m1 : XMap κ ν, (if m.buckets.isEmpty then { m with buckets := List.replicate m.minBuckets [] } else m) = m1 ∧
+  have h1 : ∃ m1 : XMap κ ν, (if m.buckets.isEmpty then { m with buckets := List.replicate m.minBuckets [], bcaps := List.replicate m.minBuckets 0 } else m) = m1 ∧
       Inv hash m1 ∧ m1.entries = m.entries ∧ m1.buckets.length ≠ 0 := by
     by_cases he : m.buckets.isEmpty
     · simp only [he, if_true]
@@ -393,7 +404,7 @@ theorem createEntry_spec {m : XMap κ ν} (h : Inv hash m) (k : κ) (v : ν) (hk
     have := link_inv i3 k v hk3 id hgl len3
     have hl : m3.buckets.length = m2.buckets.length := by rw [bk3]
     rw [hl] at this
-    exact ⟨_, _, rfl, this, by simp [ent3], rfl, rfl⟩
+    exact ⟨_, _, rfl, inv_bcaps this _, by simp [ent3], rfl, rfl⟩
 
 /-! ### erase -/
 
@@ -727,6 +738,7 @@ theorem insertAll_spec (l : List (κ × ν)) {m : XMap κ ν} (h : Inv hash m) (
 def copyInit (rhs : XMap κ ν) : XMap κ ν :=
   { lfNum := rhs.lfNum, lfDen := rhs.lfDen, minBuckets := rhs.minBuckets,
     buckets := List.replicate (rhs.lfNum * rhs.size / rhs.lfDen + 1) [],
+    bcaps := List.replicate (rhs.lfNum * rhs.size / rhs.lfDen + 1) 0,
     eraseThreshold := rhs.eraseThreshold }
 
 /-- **copy constructor** -/
